@@ -194,6 +194,9 @@ def _outcome(turn: dict[str, Any]) -> dict[str, Any]:
     if err is not None:
         out["kind"] = "error"
         out["msg"] = err["message"]
+        # what else travels in the body that replaces the result (log batches, data): the error envelope alone is
+        # one EXCEPTION batch
+        out["other_batches"] = sum(1 for s in streams_ for _b, md in s if md.get("vgi_rpc.log_level") != b"EXCEPTION")
         out["flagged"] = turn["rpc_error"]
         if "max_response_bytes" in err["message"]:
             out["cap_error"] = "wire"
@@ -298,7 +301,14 @@ def _judge(
             if cap < floor:
                 chk.skip("cap_below_minimal_error_envelope")
             else:
-                chk.violation("cap_error_body_exceeds_cap", "the error response that replaces an oversize result is itself longer than max_response_bytes", wit)
+                if o.get("other_batches"):
+                    chk.violation(
+                        "cap_error_body_exceeds_cap:carries_other_batches",
+                        "the error response that replaces an oversize result carries further batches (logs / data) besides the error and is longer than max_response_bytes",
+                        wit,
+                    )
+                else:
+                    chk.violation("cap_error_body_exceeds_cap", "the error response that replaces an oversize result is itself longer than max_response_bytes", wit)
     else:
         if ecap is None:
             chk.violation(f"external_cap_error_without_cap:{kind}", "external cap error although no external cap is configured", wit)
@@ -306,7 +316,14 @@ def _judge(
             if cap < floor:
                 chk.skip("cap_below_minimal_error_envelope")
             else:
-                chk.violation("cap_error_body_exceeds_cap", "the error response that replaces an oversize result is itself longer than max_response_bytes", wit)
+                if o.get("other_batches"):
+                    chk.violation(
+                        "cap_error_body_exceeds_cap:carries_other_batches",
+                        "the error response that replaces an oversize result carries further batches (logs / data) besides the error and is longer than max_response_bytes",
+                        wit,
+                    )
+                else:
+                    chk.violation("cap_error_body_exceeds_cap", "the error response that replaces an oversize result is itself longer than max_response_bytes", wit)
 
 
 def _overcap_key(kind: str, logical: int, ecap: int, succeeded: bool, ext: dict[str, Any] | None) -> tuple[str, str]:
@@ -629,13 +646,53 @@ def _producer_scenarios(chk: Check, rng: random.Random, tier: str, part: int, np
 # ---------------------------------------------------------------------------
 
 
+def _failing_method_scenarios(chk: Check, rng: random.Random, tier: str, part: int, nparts: int) -> None:
+    """A method that logs and then raises: its error reply (logs + EXCEPTION batch) is an HTTP response body too."""
+    if part != 0:
+        return
+    for nlogs, loglen in [(1, 100), (10, 1000), (40, 1000)] + ([(200, 500)] if tier != "quick" else []):
+        logs = [("INFO", "l" * loglen, {}) for _ in range(nlogs)]
+        program = {
+            "name": "CapSvc",
+            "methods": [
+                {"name": "uf", "kind": "unary", "params": [("p0", ("bytes",))], "ret": ("bytes",), "u": {"logs": logs, "act": ("raise", "ValueError", "boom")}},
+                {"name": "xf", "kind": "exchange", "params": [], "header": False, "out_cols": ["b"], "in_cols": ["b"], "init": {"logs": [], "act": ("ok",)}, "steps": [{"logs": logs, "act": "raise", "exc": ("ValueError", "boom")}]},
+            ],
+            "calls": [],
+        }
+        for kind, name in (("unary", "uf"), ("exchange", "xf")):
+            ref, _u, _s = _one(program, kind, name, b"x", 1, cap=None, ecap=None, coding=None, ext=None)
+            if ref is None:
+                chk.skip("failing_method_reference_missing")
+                continue
+            framed = len(ref["raw"])
+            bare, _u, _s = _one({**program, "methods": [{**m, **({"u": {**m["u"], "logs": []}} if "u" in m else {"steps": [{**m["steps"][0], "logs": []}]})} for m in program["methods"]]}, kind, name, b"x", 1, cap=None, ecap=None, coding=None, ext=None)
+            envelope = len(bare["raw"]) if bare is not None else 4096
+            for rel, cap in (("framed", framed), ("framed-1", framed - 1), ("envelope+64", envelope + 64), ("half", max(envelope + 64, framed // 2))):
+                turn, _ups, _steps = _one(program, kind, name, b"x", 1, cap=cap, ecap=None, coding=None, ext=None)
+                if turn is None:
+                    chk.skip("failing_method_turn_missing")
+                    continue
+                o = _outcome(turn)
+                chk.case(f"failing_method:{kind}:logs{nlogs}x{loglen}:{rel}")
+                chk.hit("failing_method_reply_judged")
+                if o["kind"] != "error":
+                    chk.violation(f"failing_method_not_an_error:{kind}", "a raising method was not answered with an error stream", {"kind": kind, "cap": cap, "outcome": o})
+                elif o["raw"] > cap:
+                    chk.violation(
+                        f"error_body_exceeds_cap:method_error_with_logs:{kind}",
+                        "the reply to a method that logged and then raised (log batches + EXCEPTION batch) is longer than max_response_bytes although the EXCEPTION batch alone would fit",
+                        {"kind": kind, "method": name, "logs": f"{nlogs}x{loglen}", "cap": cap, "cap_rel": rel, "body": o["raw"], "error_only_body": envelope, "other_batches": o.get("other_batches")},
+                    )
+
+
 def run_shard(job: dict[str, Any]) -> dict[str, Any]:
     import warnings
 
     warnings.simplefilter("ignore")
     chk = Check(PID, job["tier"], job["seed"])
     chk.rng = random.Random(f"C16:{job['seed']}:{job['index']}")
-    for fn in (_wire_scenarios, _search_scenarios, _ext_scenarios, _producer_scenarios):
+    for fn in (_wire_scenarios, _search_scenarios, _ext_scenarios, _producer_scenarios, _failing_method_scenarios):
         try:
             fn(chk, random.Random(f"C16:{job['seed']}:{fn.__name__}"), job["tier"], job["index"], job["n"])
         except Exception as exc:  # noqa: BLE001
@@ -662,6 +719,7 @@ def main(tier: str, seed: int) -> int:
         "producer_wire_budget_monitor",
         "producer_upload_under_external_cap_observed",
         "producer_external_cap_error_seen",
+        "failing_method_reply_judged",
     )
     chk.assumptions = [
         "framed sizes are measured on an uncapped twin app built from the same program and the same request bytes",
